@@ -66,7 +66,7 @@ def fdKeys (d : Dict Val) : List Str := d.map (·.1)
 /-- `len(d)` -/
 def fdLen (d : Dict Val) : Nat := d.length
 
-/-- `getattr(d, name)`:
+/-- `getattr(d, name)`, i.e. normal lookup and then `FormsDict.__getattr__`:
 ```
 def __getattr__(self, name):
     if name.startswith('__') and name.endswith('__'):
@@ -169,7 +169,7 @@ def cdGetunicode (c : CD) (name : Str) (default : Option Str) (encoding : Option
     | .error .unicodeError => .ok default
     | .error x => .error x                              -- `LookupError` is not caught
 
-/-- `getattr(c, name)`: `__getattr__` is `self.getunicode(name)` behind the same dunder guard -/
+/-- `getattr(c, name)`: `CookieDict.__getattr__` is `self.getunicode(name)` behind the same dunder guard -/
 def cdGetattr (c : CD) (name : Str) : Except HErr (Attr Str) :=
   if cdAttrs.contains name then .ok (.classAttr name)
   else if isDunder name then .error .attributeError
